@@ -11,7 +11,7 @@ import common as C
 
 def _one(job):
     mode, hs, seed, n, tag, cases = job
-    out = os.path.join(C.WORK, f"x_{tag}_{mode}_{hs}_{seed}.json")
+    out = os.path.join(C.WORK, f"x_{tag}_{mode.replace(':', '-')}_{hs}_{seed}.json")
     cmd = [C.PY, os.path.join(C.VERIF, "tools", "engine_x.py"), "--seed", str(seed), "--n", str(n),
            "--mode", mode, "--out", out]
     if cases:
@@ -24,7 +24,7 @@ def _one(job):
     return d
 
 
-def run_engine(ctx, tag, modes, n_quick, n_thorough, classes, hashseeds=("0",), shards=4):
+def run_engine(ctx, tag, modes, n_quick, n_thorough, classes, hashseeds=("0",), shards=4, small=None):
     """returns (coverage, violations)"""
     thorough = ctx["tier"] == "thorough"
     n = n_thorough if thorough else n_quick * ctx.get("boost", 1)
@@ -36,6 +36,15 @@ def run_engine(ctx, tag, modes, n_quick, n_thorough, classes, hashseeds=("0",), 
         for hs in hashseeds:
             for k in range(shards):
                 jobs.append((mode, hs, ctx["seed"] * 1000 + k, max(1, n // shards), tag, None))
+    if small:
+        # systematic enumeration of ALL small grammars (tools/engine_x.py small_cases) on all strings over {a,b} up to length 4
+        flags, nsh, sample = small
+        size = 4 if thorough else 3
+        for k in range(nsh):
+            if thorough:
+                jobs.append((f"small:{1 if flags else 0}:{k}:{nsh}:{size}", hashseeds[0], ctx["seed"] + k, 2500, tag + "_small", None))
+            else:
+                jobs.append((f"small:{1 if flags else 0}:{k}:{nsh}:{size}", hashseeds[0], ctx["seed"] + k, sample, tag + "_small", None))
     with ThreadPoolExecutor(max_workers=14) as ex:
         results = list(ex.map(_one, jobs))
     cov = {"evaluations": 0, "distinct_nontrivial": 0, "samples": [], "impl_outcomes": {}, "ops": {},
@@ -82,7 +91,11 @@ def run_engine(ctx, tag, modes, n_quick, n_thorough, classes, hashseeds=("0",), 
                    "bodies, bounds, *prose, right recursion, ranges); inputs = sentences derived from the grammar, "
                    "their mutants, random strings over its alphabet; every rule x every offset 0..|s|; "
                    "non-trivial = at least two distinct end offsets, or a rejection before the end of the input; "
-                   "distinct = distinct (grammar, rule, input, offset)")
+                   "distinct = distinct (grammar, rule, input, offset)"
+                   + ("; PLUS a systematic enumeration of every grammar with up to 3 (thorough: a sample of those with 4) operators "
+                      "over {a,b} (literals \"\", a, b, ab, %s\"A\", range a-b, a helper rule; alternation, concatenation, option, "
+                      "repetition with bounds 0*, 1*, 0*1, 2*2, 1*2, 0*0, 2*3, 0*2" + ("; first-match alternations; an exclusion" if small and small[0] else "")
+                      + ") on ALL strings over {a,b} up to length 4 at every offset" if small else ""))
     return cov, violations
 
 
